@@ -67,24 +67,28 @@ const (
 	kDown
 	kDisconn
 	kTomb
-	kEvicted // leader transfer paused (an evict-leader scheduler owns the store)
-	kReject  // reject-leader label property
-	kTiFlash // engine=tiflash label
+	kEvicted      // leader transfer paused (an evict-leader scheduler owns the store)
+	kReject       // reject-leader label property
+	kTiFlash      // engine=tiflash label
+	kTiFlashOff   // engine=tiflash label, store offline
+	kFollowerOnly // label role=follower: under Rules 4 the store matches the follower rule only
 )
 
-var kindStr = []string{"up", "offline", "down", "disconnected", "tombstone", "evicted", "reject-leader", "tiflash"}
+func isTiFlash(kind int) bool { return kind == kTiFlash || kind == kTiFlashOff }
+
+var kindStr = []string{"up", "offline", "down", "disconnected", "tombstone", "evicted", "reject-leader", "tiflash", "tiflash+offline", "follower-rule-only"}
 
 // the oracle's own classification, from the statement: "peers move only to up
 // stores", "leaders only to ... stores that accept leaders"
-var peerOK = []bool{true, false, false, false, false, true, true, true}
-var leaderOK = []bool{true, false, false, false, false, false, false, false}
+var peerOK = []bool{true, false, false, false, false, true, true, true, false, true}
+var leaderOK = []bool{true, false, false, false, false, false, false, false, false, false}
 
 type envSpec struct {
 	N        int   `json:"stores"`
-	Kinds    []int `json:"kinds"`    // per store 1..N
-	Layout   int   `json:"layout"`   // 0 no location labels; 1 zones z1 z1 z2 z2 z3 z3, location-labels [zone]
-	Replicas int   `json:"replicas"` // max-replicas = voters of the default rule
-	Rules    int   `json:"rules"`    // 0 placement rules off; 1 on (default rule); 2 on + 1 learner on engine=tiflash; 3 on + 1 learner anywhere
+	Kinds    []int `json:"kinds"`           // per store 1..N
+	Layout   int   `json:"layout"`          // 0 no location labels; 1 zones z1 z1 z2 z2 z3 z3, location-labels [zone]
+	Replicas int   `json:"replicas"`        // max-replicas = voters of the default rule
+	Rules    int   `json:"rules"`           // 0 placement rules off; 1 on (default rule); 2 on + 1 learner on engine=tiflash; 3 on + 1 learner anywhere; 4 on: replicas-1 voters + 1 follower on role=follower stores
 	Joint    int   `json:"joint,omitempty"` // 0 joint consensus supported and enabled; 1 switched off (enable-joint-consensus=false); 2 not supported (stores older than 5.0)
 }
 
@@ -109,7 +113,7 @@ func (e envSpec) kind(store uint64) int {
 }
 
 func (e envSpec) peers() int {
-	if e.Rules >= 2 {
+	if e.Rules == 2 || e.Rules == 3 {
 		return e.Replicas + 1
 	}
 	return e.Replicas
@@ -130,8 +134,10 @@ func storeLabels(e envSpec, id uint64) []*metapb.StoreLabel {
 	switch e.kind(id) {
 	case kReject:
 		labels = append(labels, &metapb.StoreLabel{Key: "noleader", Value: "true"})
-	case kTiFlash:
+	case kTiFlash, kTiFlashOff:
 		labels = append(labels, &metapb.StoreLabel{Key: "engine", Value: "tiflash"})
+	case kFollowerOnly:
+		labels = append(labels, &metapb.StoreLabel{Key: "role", Value: "follower"})
 	}
 	return labels
 }
@@ -147,7 +153,7 @@ func newStore(e envSpec, id uint64, regionCount, leaderCount int) *core.StoreInf
 		core.SetRegionCount(regionCount), core.SetRegionSize(int64(regionCount) * regionSize),
 		core.SetLeaderCount(leaderCount), core.SetLeaderSize(int64(leaderCount) * regionSize)}
 	switch e.kind(id) {
-	case kOffline:
+	case kOffline, kTiFlashOff:
 		o = append(o, core.OfflineStore(false))
 	case kDown:
 		o = append(o, core.SetLastHeartbeatTS(vclock.Epoch.Add(-24*time.Hour)))
@@ -194,6 +200,13 @@ func newCluster(e envSpec) (*mockcluster.Cluster, context.CancelFunc) {
 			LabelConstraints: []placement.LabelConstraint{{Key: "engine", Op: placement.In, Values: []string{"tiflash"}}}}))
 	case 3:
 		must(c.RuleManager.SetRule(&placement.Rule{GroupID: "pd", ID: "learner", Role: placement.Learner, Count: 1}))
+	case 4:
+		// replicas-1 voters on the ordinary stores, one follower on the stores labelled role=follower:
+		// those stores hold voters that must never lead
+		must(c.RuleManager.SetRule(&placement.Rule{GroupID: "pd", ID: "default", Role: placement.Voter, Count: e.Replicas - 1,
+			LabelConstraints: []placement.LabelConstraint{{Key: "role", Op: placement.NotIn, Values: []string{"follower"}}}}))
+		must(c.RuleManager.SetRule(&placement.Rule{GroupID: "pd", ID: "follower", Role: placement.Follower, Count: 1,
+			LabelConstraints: []placement.LabelConstraint{{Key: "role", Op: placement.In, Values: []string{"follower"}}}}))
 	}
 	// peer ids handed out by the allocator stay away from store ids and the inputs' peer ids
 	for i := 0; i < 5000; i++ {
